@@ -89,6 +89,12 @@ theorem C11_finding_misaligned_token :
 theorem C11_finding_shift_leaves_token :
     expandAll 1 [[50]] (token 1 ++ [44] ++ token 2) = [50, 44] ++ token 2 := by decide
 
+/-- KNOWN FINDING (model level, tab-inside-string-expanded-in-stored-body): the stored form of the body line
+    ` db "a<TAB>b"` of a macro without parameters - and so the line a call delivers - has two blanks where the string
+    constant has its TAB; `KillCtrl` does not know about string constants. -/
+theorem C11_finding_tab_in_string :
+    macroLine false [] [] [32, 100, 98, 32, 34, 97, 9, 98, 34] = [32, 100, 98, 32, 34, 97, 32, 32, 98, 34] := by decide
+
 /-- the token numbers the assembler can use (parameters 1..ArgCntMax and the four implicit ones; `ArgCntMax` is
     regenerated from asmdef.h on every run) stay inside the range `C11_tokens` needs: both token bytes are control characters -/
 theorem C11_token_range : AslModel.Generated.argCntMax + 4 < 496 := by decide
